@@ -837,10 +837,10 @@ def spec_check(ctx, budget):
     rng = ctx.subrng(f"spec{budget}")
     seen_sig = {}
 
-    def add_failure(o, kind, what, inp, want, got, sig=None):  # keep at most 6 examples per failure class,
+    def add_failure(o, kind, what, inp, want, got, sig=None):  # keep at most 2 examples per failure class,
         seen_sig[sig] = seen_sig.get(sig, 0) + 1               # so one frequent class cannot crowd out another
         bump(o, "failure_class", sig)
-        if seen_sig[sig] <= 6:
+        if seen_sig[sig] <= 2:
             _add_failure(o, kind, what, inp, want, got, sig=sig)
 
     n = 120 * budget
